@@ -497,6 +497,17 @@ func sDirected() []SCase {
 	ob3 := T("object")
 	ob3.Ap = T("integer")
 	add(ob3, map[string]any{"a": 1.0}, map[string]any{"a": "x"}, map[string]any{})
+	// null against compositions: after a composition that accepts null the schema's own keywords (type, enum, ...) are skipped for null, "not" is not
+	nstr := T("string")
+	nstr.Nullable = true
+	nn := &GSchema{Nullable: true}
+	add(&GSchema{AllOf: []*GSchema{nstr}, Not: nn}, nil, "a", 1.0)
+	add(&GSchema{AnyOf: []*GSchema{nstr}, Not: nn}, nil, "a")
+	add(&GSchema{OneOf: []*GSchema{nstr}, Not: nn}, nil, "a")
+	add(&GSchema{AllOf: []*GSchema{nstr}, Not: T("string")}, nil, "a")
+	add(&GSchema{AllOf: []*GSchema{nstr}, HasTypes: true, Types: []string{"string"}, Enum: []any{"a"}}, nil, "a", "b")
+	add(&GSchema{HasTypes: true, Types: []string{"string"}, Nullable: true, Not: nn}, nil, "a")
+	add(&GSchema{HasTypes: true, Types: []string{"object"}, Props: map[string]*GSchema{"p": {AllOf: []*GSchema{nstr}, Not: nn}}}, map[string]any{"p": nil}, map[string]any{"p": "a"})
 	// compositions
 	add(&GSchema{OneOf: []*GSchema{T("string"), T("integer")}}, "a", 1.0, 1.5, nil, true)
 	add(&GSchema{OneOf: []*GSchema{T("number"), T("integer")}}, 1.0, 1.5, "a")
